@@ -32,8 +32,9 @@ type op struct {
 	Flaw   string `json:"flaw,omitempty"` // reg: dupid|dupkey|t1|tbig|scheme|badkey|pk ; vote: json|big|zero|nosig
 	S      int    `json:"s,omitempty"`    // vote: sender = signer index 1..n of wallet SW (0 = stranger)
 	SW     int    `json:"sw,omitempty"`   // vote: the wallet the sender belongs to (normally = W)
-	Now    int64  `json:"now,omitempty"`
-	P      int    `json:"p,omitempty"` // proposal id number
+	Now    int64  `json:"now,omitempty"`  // block creation date: the chain clock the contract must use
+	TD     int64  `json:"td,omitempty"`   // txn creation date = Now + TD (chosen by the client, independent of the block)
+	P      int    `json:"p,omitempty"`    // proposal id number
 	To     int    `json:"to,omitempty"`
 	Amount uint64 `json:"amount,omitempty"`
 	Sig    string `json:"sig,omitempty"` // ok|otheramount|otherkey|garbage
@@ -325,7 +326,7 @@ func run(h hist) result {
 				sigOK = st.VerifySignature(false) == nil
 			}
 			txnHash := encryption.Hash(fmt.Sprintf("ms txn %d", i))
-			txn := sc.Txn(txnHash, sender, multisigsc.Address, 0, o.Now)
+			txn := sc.Txn(txnHash, sender, multisigsc.Address, 0, o.Now+o.TD)
 			ctx := sc.NewCtx(tm, int64(i+2), txn)
 			ctx.GetBlock().CreationDate = common.Timestamp(o.Now)
 			resp, err := contract.Execute(txn, multisigsc.VoteFuncName, input, ctx)
@@ -567,6 +568,17 @@ func genHist(r *vh.Rand) hist {
 				now = o.Now
 			}
 		}
+		// the client's own date on the transaction is independent of the block time
+		switch x := r.Intn(10); {
+		case x < 3:
+			o.TD = -int64(r.Range(1, 10))
+		case x < 5:
+			o.TD = int64(r.Range(1, 10))
+		case x < 6:
+			o.TD = -multisigsc.ExpirationTime / 2
+		case x < 7: // dated just before the proposal's expiry whatever the block time is
+			o.TD = pr.created + multisigsc.ExpirationTime - int64(r.Range(1, 3)) - o.Now
+		}
 		switch d := r.Intn(24); d {
 		case 0:
 			o.Sig = "otheramount"
@@ -618,7 +630,7 @@ func main() {
 		"(threshold ids are hex: signers #10-#15 have ids a-f, #16-#20 ids 10-14), else 2-of-3 and 3-of-4 or 2-of-2 and t-of-4/5; per proposal a committee of t..t+2 signers biased to the high-index ones votes, " +
 		"registered by their own client (1 in 6 first tried with a flaw: duplicate id/key, threshold 1 or > n, more than 20 signers, other scheme, bad key, foreign public key, other client), then 6-30 votes " +
 		"on 3 proposal ids per wallet by random signers (repeats frequent), 1 in 3 flawed: signature over another amount, made with another share, garbage, stranger, signer of the other wallet, " +
-		"other amount/recipient than the proposal, malformed/oversized/zero-amount/unsigned payload; block times advance, go back, jump half a week, or aim at creation + one week ± 1 s. " +
+		"other amount/recipient than the proposal, malformed/oversized/zero-amount/unsigned payload; block times advance, go back, jump half a week, or aim at creation + one week ± 1 s; the transaction's own creation date is chosen independently of the block time (equal, ±1-10 s, half a week earlier, or just before the proposal's expiry). " +
 		"non-trivial = a proposal executed, a repeat or post-execution vote was seen and a vote was refused; distinct by full history"
 	cf := &vh.CasesFile{Imports: []string{"Base.Corr", "Model.Multisig", "Corr.Multisig"}, CaseType: "ms_case", CheckFn: "ms_check"}
 	reported := map[string]bool{}
@@ -665,6 +677,11 @@ func main() {
 	handle(hist{Wallets: []walletDesc{{2, 3}, {3, 4}}, Ops: []op{{K: "reg", W: 1}, {K: "reg", W: 1}, v(1, 1, 1000, 0), v(1, 1, 1001, 0), v(1, 2, 1002, 0), v(1, 3, 1003, 0),
 		v(1, 1, 2000, 1), v(1, 2, 2000+W-1, 1), v(1, 1, 3000, 2), v(1, 2, 3000+W, 2), v(1, 2, 2999+W, 2),
 		v(1, 3, 1000+W+5, 0), v(1, 1, 1000+W+6, 0)}})
+	// directed: the deciding vote arrives in a block at/after the expiry but is dated before it by its sender
+	handle(hist{Wallets: []walletDesc{{2, 3}, {3, 4}}, Ops: []op{{K: "reg", W: 1}, v(1, 1, 1000, 0),
+		{K: "vote", W: 1, SW: 1, S: 2, Now: 1000 + W, TD: -5, P: 0, To: 1, Amount: 7, Sig: "ok"},
+		{K: "vote", W: 1, SW: 1, S: 2, Now: 1000 + W - 1, TD: 5, P: 0, To: 1, Amount: 7, Sig: "ok"},
+		v(1, 1, 5000, 1), {K: "vote", W: 1, SW: 1, S: 3, Now: 5000 + W + 100, TD: -W, P: 1, To: 1, Amount: 7, Sig: "ok"}}})
 	// directed: large wallets whose deciding voters have hex ids with letters (#10-#15) and two digits (#16-#20)
 	handle(hist{Wallets: []walletDesc{{3, 20}, {2, 16}}, Ops: []op{{K: "reg", W: 1}, {K: "reg", W: 2},
 		v(1, 16, 1000, 0), v(1, 20, 1001, 0), v(1, 16, 1002, 0), v(1, 10, 1003, 0), v(1, 1, 1004, 0),
